@@ -266,7 +266,7 @@ func init() {
 // corpus of valid scripts to mutate
 func c08Corpus() []string {
 	var out []string
-	files, _ := filepath.Glob("/repo/_examples/scripts/*")
+	files, _ := filepath.Glob(repoRoot() + "/_examples/scripts/*")
 	for _, f := range files {
 		if b, err := os.ReadFile(f); err == nil && len(b) < 20000 {
 			out = append(out, string(b))
